@@ -176,6 +176,18 @@ def _attempt(payload):
             r = expr.get_value_and_derivatives(database=db, prepare_ids=True, number_of_draws=4, aggregation=False,
                                                **payload.get('flags', dict(gradient=False, hessian=False, bhhh=False)))
             out['value'] = np.asarray(r.functions, float).tolist()
+        elif entry == 'create_function':
+            # ids prepared by create_function, evaluation with prepare_ids=False
+            names = sorted(n for n, v in spec['betas'].items() if v[1] == 0)
+            f = expr.create_function(database=db, number_of_draws=4, gradient=False, hessian=False, bhhh=False)
+            x = [spec['betas'][n][0] for n in expr.id_manager.free_betas.names]
+            out['value'] = [float(f(x).function)]
+        elif entry == 'prepared_ids':
+            from biogeme.expressions import IdManager
+
+            expr.set_id_manager(IdManager([expr], db, 4))
+            v = expr.get_value_c(database=db, prepare_ids=False, number_of_draws=4)
+            out['value'] = np.asarray(v, float).tolist()
         elif entry in ('BIOGEME', 'BIOGEME_threads', 'simulate'):
             from biogeme.biogeme import BIOGEME
             from biogeme.parameters import Parameters
@@ -349,7 +361,10 @@ def _plant_case(case, rec):
     base['one_beta_object'] = False
     ref = j['value']
     # ---- the valid twin must be accepted on every entry point -----------------------------
-    for entry in ('get_value_c', 'BIOGEME', 'simulate'):
+    has_elementary = bool(_betas_in(base['ast'])) or '"var"' in json.dumps(base['ast'])
+    for entry in ('get_value_c', 'BIOGEME', 'simulate', 'create_function', 'prepared_ids'):
+        if entry == 'create_function' and not has_elementary:
+            continue  # a constant formula has no ids to prepare: create_function is not meant for it
         res = attempt(base, entry)
         rec.ev()
         rec.c('valid_twin_runs')
@@ -395,8 +410,13 @@ def _plant_case(case, rec):
         fs = _materialise_dup(fs)
         witness = {'fault': kind, 'parent': parent, 'slot': slot, 'spec': fs}
         entries = ['get_value_c', 'BIOGEME']
-        if rr.random() < 0.3:
+        extra_entry = rr.random()
+        if extra_entry < 0.3:
             entries.append('simulate')
+        elif extra_entry < 0.55:
+            entries.append('create_function')
+        elif extra_entry < 0.8:
+            entries.append('prepared_ids')
         for entry in entries:
             res = attempt(fs, entry)
             rec.key([fs['ast'], kind, path, entry])
